@@ -380,6 +380,11 @@ class Interp:
 
     def select_concrete_list(self, items, idx):
         n = len(items)
+        if n >= 2 and isinstance(idx, SInt) and idx.lo == 0 and idx.hi == 1 and \
+                isinstance(items[0], (int, SInt)) and isinstance(items[1], (int, SInt)) and \
+                not isinstance(items[0], bool) and not isinstance(items[1], bool):
+            # index is a bit: items[0] + (items[1] - items[0]) * idx  (exact, no fork)
+            return items[0] + (items[1] - items[0]) * idx
         neg = idx < 0
         if neg is True or (neg is not False and self.decide(neg)):
             idx = idx + n
